@@ -599,6 +599,11 @@ func (w *c17World) commit(maxBatch, dupBias int, noFaults bool) {
 // met (preT, preM) and left (postT, postM).
 func (w *c17World) statement(c *migCmd, tk string, preT *mTask, preM *rtMeta, postT *mTask, postM *rtMeta) bool {
 	r := w.r
+	if (c.kind == mkCreate || c.kind == mkCreateGuarded) && preT == nil {
+		// a new task (possibly re-using the id of one that was garbage-collected) has no history
+		delete(w.cutoverDone, tk)
+		delete(w.rewound, tk)
+	}
 	if c.kind == mkCommit || c.kind == mkPromote {
 		var rg metadb.ChannelMigrationRuntimeGuard
 		if c.kind == mkCommit {
